@@ -32,7 +32,22 @@ import numpy as np
 from common import Check, ensure_impl_path, run_model, vm_crosscheck
 
 PROP = 'C14'
-GATE_TIMEOUT = 20.0
+GATE_TIMEOUT = 6.0
+MAX_REPLAYS_PER_KIND = 6
+
+
+def report(chk, kind, **kw):
+    """chk.violation with a cap on the number of replay files per (kind, part) — all are counted."""
+    case = kw.get('case')
+    part = 'schedule' if isinstance(case, dict) and 'schedule' in case else 'other'
+    pred = kw.get('predicate') or ''
+    part += ':' + ('wrong-data' if 'different from' in pred else 'raised' if ' raised ' in pred else
+                   'unlocked-call' if 'without holding' in pred else 'other')
+    cnt = chk.extra.setdefault('violations_by_kind', {})
+    key = f'{kind}/{part}'
+    cnt[key] = cnt.get(key, 0) + 1
+    if cnt[key] <= MAX_REPLAYS_PER_KIND:
+        chk.violation(kind, **kw)
 
 
 # ------------------------------------------------------------------ instrumentation
@@ -773,7 +788,7 @@ def evaluate(chk, sc, progs, wl_ok, single, run, mout, tag):
     case = {'scenario': sc.desc(), 'schedule': run['trace']}
     pred = None
     if not run['ok']:
-        chk.violation('harness_error', case=case, predicate='scheduler timeout / stuck thread: ' + str(run['errors'][-1:]),
+        report(chk, 'harness_error', case=case, predicate='scheduler timeout / stuck thread: ' + str(run['errors'][-1:]),
                       found_input=False)
         return
     # ---- property predicate, directly on the implementation
@@ -813,13 +828,13 @@ def evaluate(chk, sc, progs, wl_ok, single, run, mout, tag):
         if not sc.nolock and not wl_ok[i]:
             dis.append((f'thread {i} program not well-locked per model', progs[i][:160], ''))
     if pred:
-        chk.violation('property_violation', case=case, predicate=pred, model_output=mout[:300] if mout else None,
+        report(chk, 'property_violation', case=case, predicate=pred, model_output=mout[:300] if mout else None,
                       impl_output={'errors': run['errors'], 'tokens': [join_progs(t) for t in run['tokens']]},
                       theorem='C14_reads_correct')
     if dis:
         chk.disagreements += 1
         if not pred:
-            chk.violation('correspondence', case=case, model_output=str(dis[0][1]), impl_output=str(dis[0][2]),
+            report(chk, 'correspondence', case=case, model_output=str(dis[0][1]), impl_output=str(dis[0][2]),
                           predicate='model and implementation disagree at ' + dis[0][0] +
                           '; every thread still returned its single-threaded data', found_input=False,
                           theorem='correspondence C14/Model.v <-> arrayproxy.py/fileslice.py/volumeutils.py')
@@ -857,7 +872,7 @@ def run(chk: Check):
     pk = run_model(PROP, [f'p probeok {probe}'])['p'] if probe is not None else 'ok 0'
     if pk != 'ok 1':
         chk.disagreements += 1
-        chk.violation('correspondence', case={'probe': probe}, predicate='np.memmap probe on an unmappable handle is '
+        report(chk, 'correspondence', case={'probe': probe}, predicate='np.memmap probe on an unmappable handle is '
                       'not a list of position calls (C14_programs_well_locked premise probe_ok fails)', found_input=False,
                       theorem='C14_programs_well_locked')
         return
@@ -896,11 +911,12 @@ def run(chk: Check):
                             outer=rng.random() < 0.2))
         rand_scs.append(Scenario(fs, ths, kind=kind, mmap={'orig': rng.random() < 0.5, 'copy': rng.random() < 0.5}
                                  if kind == 'handle' else None, p0=rng.randrange(0, 64), name='random'))
-    all_scs = scs + [canary] + rand_scs
+    all_scs = [canary] + scs + rand_scs
     progs, wl = model_programs(chk, all_scs, probe)
     singles = [runner.single(sc) for sc in all_scs]
 
     runs = []     # (scenario index, run)
+    stuck = wrong = 0
     t_sched = time.time()
     budget = chk.n(45, 600)
     for si, sc in enumerate(all_scs):
@@ -923,7 +939,15 @@ def run(chk: Check):
             seen.add(key)
             runs.append((si, r))
             if not r['ok']:
+                stuck += 1
                 break
+            if r['results'] != singles[si] and not sc.nolock:
+                wrong += 1
+                if wrong >= 30:
+                    break
+        if stuck >= 2 or wrong >= 30:
+            chk.extra['schedule_enumeration_stopped_early'] = {'stuck_runs': stuck, 'runs_with_wrong_data': wrong}
+            break
         if time.time() - t_sched > budget and not is_core:
             chk.extra['random_scenarios_skipped_for_time'] = len(all_scs) - si - 1
             break
@@ -957,22 +981,25 @@ def run(chk: Check):
     chk.extra['schedules_per_scenario'] = per_sc
     chk.extra['canary_mixing_schedules'] = mixing_seen
     if mixing_seen == 0:
-        chk.violation('harness_error', case={'scenario': canary.desc()}, found_input=False,
+        report(chk, 'harness_error', case={'scenario': canary.desc()}, found_input=False,
                       predicate='canary: with the lock disabled no enumerated schedule mixed up data — the scheduler '
                                 'is not exercising interleavings')
     # the model's refuting schedule on the implementation (C14_without_lock_refuted): seek0 seek1 read0 read1
     r = runner.run(canary, policy_trace([0, 1, 0, 1], policy_preempt({})))
-    ci = len(scs)
+    ci = 0
     wit = r['ok'] and r['results'][0] != singles[ci][0]
     chk.count(key=('witness', tuple(r['trace'])), tag='canary_nolock')
     chk.extra['without_lock_witness_reproduced_on_implementation'] = bool(wit)
     if not wit:
-        chk.violation('harness_error', case={'scenario': canary.desc(), 'schedule': r['trace']}, found_input=False,
+        report(chk, 'harness_error', case={'scenario': canary.desc(), 'schedule': r['trace']}, found_input=False,
                       predicate='C14_without_lock_refuted witness schedule does not mix data on the implementation '
                                 'with the lock disabled')
 
     # ================= (c) free-running real threads (smoke; lazily created persistent opener)
     part_c(chk, rec)
+
+    # ================= the proxies' own lock objects (before the harness replaces them) are re-entrant
+    part_lock_kind(chk)
 
     # observation outside the statement
     try:
@@ -988,6 +1015,7 @@ def run(chk: Check):
 
     # ================= vm_compute cross-check of extraction + driver (tiny synthetic cases)
     part_vm(chk)
+    chk.extra['unproved_statements'] = []
 
 
 # ---------------------------------------------------------------------------------------------
@@ -1126,12 +1154,12 @@ def part_a(chk, rec, probe):
         if solo.startswith('ok') and bytes.fromhex(solo[3:].replace(';', '').replace('x', '')) != o['data'] and not o['err']:
             dis.append(('bytes read', solo[:120], hx(o['data'])[:120]))
         if pred:
-            chk.violation('property_violation', case=case, predicate=pred, model_output=p, impl_output=o['tokens'],
+            report(chk, 'property_violation', case=case, predicate=pred, model_output=p, impl_output=o['tokens'],
                           theorem='C14_lock_discipline_inv')
         if dis:
             chk.disagreements += 1
             if not pred:
-                chk.violation('correspondence', case=case, model_output=str(dis[0][1]), impl_output=str(dis[0][2]),
+                report(chk, 'correspondence', case=case, model_output=str(dis[0][1]), impl_output=str(dis[0][2]),
                               predicate='model and implementation disagree at ' + dis[0][0] +
                               '; all file calls were made under the lock', found_input=False,
                               theorem='correspondence C14/Model.v segs_prog/whole_prog <-> read_segments/array_from_file')
@@ -1140,6 +1168,44 @@ def part_a(chk, rec, probe):
                                                               '(shape of a zero-size whole-array read; C03 subject, not C14)',
                                                       'count': 0, 'first': case})
             nv['count'] += 1
+
+
+def part_lock_kind(chk, workdir=None):
+    """The model's lock is an RLock: the lock every kind of proxy is born with must be
+    re-entrant (non-blocking double acquire by one thread succeeds) and shared by copy() of a
+    handle proxy; probed without blocking so that nothing can hang."""
+    import pickle
+    from nibabel.arrayproxy import ArrayProxy
+    fs = FileSpec((33, 3, 2), '<f8', 16)
+    path = os.path.join(workdir or chk.workdir, 'lockkind.dat')
+    bad = []
+    with open(path, 'wb') as g:
+        g.write(fs.bytes)
+    h = ArrayProxy(io.BytesIO(fs.bytes), fs.par())
+    pth = ArrayProxy(path, fs.par(), keep_file_open=True)
+    cands = {'handle proxy': h, 'copy of handle proxy': h.copy(), 'path proxy keep_file_open': pth,
+             'copy of path proxy': pth.copy(), 'unpickled path proxy': pickle.loads(pickle.dumps(pth)),
+             'reshaped handle proxy': h.reshape((33, 6))}
+    for name, p in cands.items():
+        lk = p._lock
+        a = lk.acquire(False)
+        b = lk.acquire(False) if a else False
+        if b:
+            lk.release()
+        if a:
+            lk.release()
+        if chk is not None:
+            chk.count(key=('lock_kind', name), tag='lock_kind')
+        if not (a and b):
+            bad.append((name, f'{name}: proxy._lock is not re-entrant (second non-blocking acquire by the same thread '
+                        'failed): a caller that holds the proxy lock around a read would deadlock; the model '
+                        'and C14_programs_well_locked (outer_locked) assume threading.RLock'))
+    if h.copy()._lock is not h._lock:
+        bad.append(('copy shares lock', 'copy() of a proxy over an open handle does not share its lock'))
+    if chk is not None:
+        for name, pred in bad:
+            report(chk, 'property_violation', case={'lock_kind': name}, predicate=pred, theorem='C14_programs_well_locked')
+    return bad
 
 
 def part_c(chk, rec):
@@ -1194,7 +1260,7 @@ def part_c(chk, rec):
         if kind == 'kfo' and hasattr(p, '_opener'):
             p._opener.close_if_mine()
         if bad:
-            chk.violation('property_violation', case={'free_running': kind, 'rep': rep, 'seed': chk.seed},
+            report(chk, 'property_violation', case={'free_running': kind, 'rep': rep, 'seed': chk.seed},
                           predicate='8 free-running threads: ' + ('stuck thread' if stuck else
                                                                    f'errors {[e for e in errs if e][:2]}' if any(errs) else
                                                                    'a thread returned data different from its single-threaded read'),
@@ -1261,12 +1327,20 @@ def part_vm(chk):
     chk.vm = {'cases': ncase, 'disagreements': len(bad)}
     if bad:
         chk.disagreements += 1
-        chk.violation('correspondence', case={'vm_crosscheck': [pairs[b][1] if isinstance(b, int) and b < len(pairs) else b for b in bad]},
+        report(chk, 'correspondence', case={'vm_crosscheck': [pairs[b][1] if isinstance(b, int) and b < len(pairs) else b for b in bad]},
                       predicate='extracted model disagrees with vm_compute evaluation of the model', found_input=False,
                       theorem='extraction cross-check')
 
 
 def replay(chk, obj):
+    import shutil
+    try:
+        return _replay(chk, obj)
+    finally:
+        shutil.rmtree(chk.workdir, ignore_errors=True)
+
+
+def _replay(chk, obj):
     ensure_impl_path()
     c = obj.get('case')
     rec = Recorder()
@@ -1302,6 +1376,11 @@ def replay(chk, obj):
         sc.close()
         print({'calls': join_progs(rec.tokens[None]), 'calls_without_lock': rec.unheld[None], 'error': err})
         bad = bool(rec.unheld[None]) or err is not None
+        print('property fails on this case' if bad else 'property holds on this case')
+        return 1 if bad else 0
+    if isinstance(c, dict) and 'lock_kind' in c:
+        bad = part_lock_kind(None, chk.workdir)
+        print(bad)
         print('property fails on this case' if bad else 'property holds on this case')
         return 1 if bad else 0
     print('nothing to replay:', obj.get('predicate'))
